@@ -403,20 +403,120 @@ func (vc *VC) specName(fn *ssa.Function) string {
 	return "spec." + n
 }
 
-// specHeaps: heaps a spec function (transitively) reads.
-func (vc *VC) specHeaps(fn *ssa.Function) []string {
-	seen := map[*ssa.Function]bool{}
-	heaps := map[string]Sort{}
-	var visit func(f *ssa.Function)
-	visit = func(f *ssa.Function) {
-		if seen[f] || f.Blocks == nil {
+// ---------------------------------------------------------------------------
+// Heaps read by spec functions. A slice parameter that is only indexed (or
+// resliced and indexed) is passed together with its *row* — the backing array
+// as a value — so that the function's value does not depend on the rest of
+// the heap. Whole heaps are passed only for other reads.
+
+type specCall struct {
+	callee *ssa.Function
+	// for each slice parameter of the callee: is the argument derived from one of our own slice parameters?
+	sliceArgs []specSliceArg
+}
+type specSliceArg struct {
+	derived bool
+	heap    string
+	sort    Sort
+}
+
+// paramDerived: v is (a reslice of) a load of a never-reassigned slice parameter of root.
+func paramDerived(v ssa.Value, depth int) bool {
+	if depth > 8 {
+		return false
+	}
+	switch x := v.(type) {
+	case *ssa.Parameter:
+		_, ok := x.Type().Underlying().(*types.Slice)
+		return ok
+	case *ssa.Slice:
+		return paramDerived(x.X, depth+1)
+	case *ssa.UnOp:
+		if x.Op != token.MUL {
+			return false
+		}
+		switch c := x.X.(type) {
+		case *ssa.Alloc:
+			return spillOfSliceParam(c)
+		case *ssa.FreeVar:
+			// captured variable of the enclosing spec function
+			fn := c.Parent()
+			par := fn.Parent()
+			if par == nil {
+				return false
+			}
+			idx := -1
+			for i, fv := range fn.FreeVars {
+				if fv == c {
+					idx = i
+				}
+			}
+			for _, b := range par.Blocks {
+				for _, ins := range b.Instrs {
+					if mc, ok := ins.(*ssa.MakeClosure); ok && mc.Fn == fn && idx >= 0 && idx < len(mc.Bindings) {
+						switch bnd := mc.Bindings[idx].(type) {
+						case *ssa.Alloc:
+							return spillOfSliceParam(bnd)
+						case *ssa.FreeVar:
+							return paramDerived(&ssa.UnOp{Op: token.MUL, X: bnd}, depth+1)
+						}
+					}
+				}
+			}
+		}
+	}
+	return false
+}
+
+// spillOfSliceParam: the Alloc is the spill cell of a slice parameter and is stored to exactly once.
+func spillOfSliceParam(a *ssa.Alloc) bool {
+	fn := a.Parent()
+	var param *ssa.Parameter
+	for _, p := range fn.Params {
+		if p.Pos() == a.Pos() && p.Name() == a.Comment {
+			param = p
+		}
+	}
+	if param == nil {
+		return false
+	}
+	if _, ok := param.Type().Underlying().(*types.Slice); !ok {
+		return false
+	}
+	stores := 0
+	if refs := a.Referrers(); refs != nil {
+		for _, r := range *refs {
+			if s, ok := r.(*ssa.Store); ok && s.Addr == a {
+				stores++
+				if s.Val != param {
+					return false
+				}
+			}
+		}
+	}
+	return stores == 1
+}
+
+type specFacts struct {
+	direct map[string]Sort
+	calls  []specCall
+}
+
+func (vc *VC) specFactsOf(f *ssa.Function) *specFacts {
+	if sf, ok := vc.specFactCache[f]; ok {
+		return sf
+	}
+	sf := &specFacts{direct: map[string]Sort{}}
+	vc.specFactCache[f] = sf
+	var scan func(g *ssa.Function)
+	scan = func(g *ssa.Function) {
+		if g.Blocks == nil {
 			return
 		}
-		seen[f] = true
-		for _, a := range f.AnonFuncs {
-			visit(a)
+		for _, a := range g.AnonFuncs {
+			scan(a)
 		}
-		for _, b := range f.Blocks {
+		for _, b := range g.Blocks {
 			for _, ins := range b.Instrs {
 				switch x := ins.(type) {
 				case *ssa.UnOp:
@@ -433,66 +533,158 @@ func (vc *VC) specHeaps(fn *ssa.Function) []string {
 					}
 					switch r := root.(type) {
 					case *ssa.Alloc, *ssa.FreeVar:
-						_ = r
 					case *ssa.IndexAddr:
 						if sl, ok := r.X.Type().Underlying().(*types.Slice); ok {
-							heaps[vc.ss.HeapName(sl.Elem())] = HeapSort(vc.specialSort(sl.Elem()))
+							if !paramDerived(r.X, 0) {
+								sf.direct[vc.ss.HeapName(sl.Elem())] = HeapSort(vc.specialSort(sl.Elem()))
+							}
 						}
 					default:
 						pt := pointee(root.Type())
-						heaps[vc.ss.HeapName(pt)] = HeapSort(vc.specialSort(pt))
+						sf.direct[vc.ss.HeapName(pt)] = HeapSort(vc.specialSort(pt))
 					}
 				case *ssa.Lookup:
 					if mt, ok := x.X.Type().Underlying().(*types.Map); ok {
 						n, s := vc.mapHeap(mt)
-						heaps[n] = s
+						sf.direct[n] = s
 					}
 				case *ssa.TypeAssert:
 					if !types.IsInterface(x.AssertedType) {
 						if _, isPtr := x.AssertedType.Underlying().(*types.Pointer); !isPtr {
-							heaps[vc.boxName(x.AssertedType)] = Sort("(Array Int " + string(vc.specialSort(x.AssertedType)) + ")")
+							sf.direct[vc.boxName(x.AssertedType)] = Sort("(Array Int " + string(vc.specialSort(x.AssertedType)) + ")")
 						}
 					}
 				case ssa.CallInstruction:
-					if c := x.Common().StaticCallee(); c != nil {
-						if on := originName(c); (on == "ghostInt" || on == "ghostIface") && vc.L.IsSpecFunc(c) {
+					c := x.Common().StaticCallee()
+					if c == nil {
+						continue
+					}
+					on := originName(c)
+					if vc.L.IsSpecFunc(c) {
+						if on == "ghostInt" || on == "ghostIface" {
 							if nm, ok := constString(x.Common().Args[0]); ok {
 								if on == "ghostInt" {
-									heaps["$g."+nm] = Sort("(Array Ptr Int)")
+									sf.direct["$g."+nm] = Sort("(Array Ptr Int)")
 								} else {
-									heaps["$g."+nm] = Sort("(Array Ptr Iface)")
+									sf.direct["$g."+nm] = Sort("(Array Ptr Iface)")
 								}
 							}
 						}
-						if vc.L.IsSpecFunc(c) {
-							for _, g := range intrinsicGhosts(originName(c)) {
-								heaps[g.name] = g.sort
+						if on == "mapVal" {
+							if mt, ok := x.Common().Args[0].Type().Underlying().(*types.Map); ok {
+								n, srt := vc.mapHeap(mt)
+								sf.direct[n] = srt
 							}
-							visit(c)
-						} else if c.Pkg == vc.L.SSA {
-							visit(c)
-						} else if mf := vc.L.modelFunc(c); mf != nil {
-							visit(mf)
+						}
+						for _, gr := range intrinsicGhosts(on) {
+							sf.direct[gr.name] = gr.sort
+						}
+					}
+					var target *ssa.Function
+					switch {
+					case vc.L.IsSpecFunc(c):
+						target = c
+					case c.Pkg == vc.L.SSA:
+						target = c
+					default:
+						if mf := vc.L.modelFunc(c); mf != nil {
+							target = mf
 						} else {
 							for n, srt := range vc.modelReadHeaps(c.String()) {
-								heaps[n] = srt
+								sf.direct[n] = srt
 							}
+						}
+					}
+					if target != nil {
+						sc := specCall{callee: target}
+						for i, p := range target.Params {
+							if sl, ok := p.Type().Underlying().(*types.Slice); ok && i < len(x.Common().Args) {
+								sc.sliceArgs = append(sc.sliceArgs, specSliceArg{derived: paramDerived(x.Common().Args[i], 0),
+									heap: vc.ss.HeapName(sl.Elem()), sort: HeapSort(vc.specialSort(sl.Elem()))})
+							}
+						}
+						sf.calls = append(sf.calls, sc)
+					}
+				}
+			}
+		}
+	}
+	scan(f)
+	return sf
+}
+
+// specHeaps: whole heaps a spec function (transitively) needs, as a fixpoint.
+func (vc *VC) specHeaps(fn *ssa.Function) []string {
+	if r, ok := vc.specHeapCache[fn]; ok {
+		return r
+	}
+	// collect reachable functions
+	var all []*ssa.Function
+	seen := map[*ssa.Function]bool{}
+	var visit func(f *ssa.Function)
+	visit = func(f *ssa.Function) {
+		if seen[f] {
+			return
+		}
+		seen[f] = true
+		all = append(all, f)
+		for _, c := range vc.specFactsOf(f).calls {
+			visit(c.callee)
+		}
+	}
+	visit(fn)
+	sets := map[*ssa.Function]map[string]Sort{}
+	for _, f := range all {
+		sets[f] = map[string]Sort{}
+		for k, v := range vc.specFactsOf(f).direct {
+			sets[f][k] = v
+		}
+	}
+	for changed := true; changed; {
+		changed = false
+		for _, f := range all {
+			for _, c := range vc.specFactsOf(f).calls {
+				for k, v := range sets[c.callee] {
+					if _, ok := sets[f][k]; !ok {
+						sets[f][k] = v
+						changed = true
+					}
+				}
+				for _, sa := range c.sliceArgs {
+					if !sa.derived {
+						if _, ok := sets[f][sa.heap]; !ok {
+							sets[f][sa.heap] = sa.sort
+							changed = true
 						}
 					}
 				}
 			}
 		}
 	}
-	visit(fn)
-	var out []string
-	for k, s := range heaps {
-		if _, ok := vc.heapSorts[k]; !ok {
-			vc.heapSorts[k] = s
+	for _, f := range all {
+		var out []string
+		for k, srt := range sets[f] {
+			if _, ok := vc.heapSorts[k]; !ok {
+				vc.heapSorts[k] = srt
+			}
+			out = append(out, k)
 		}
-		out = append(out, k)
+		sort.Strings(out)
+		// results for functions inside a cycle are only final for the root; cache the root only
+		if f == fn {
+			vc.specHeapCache[f] = out
+		}
 	}
-	sort.Strings(out)
-	return out
+	return vc.specHeapCache[fn]
+}
+
+// rowFor: the backing array of slice s as a value.
+func (vc *VC) rowFor(st *State, elem types.Type, s Term) Term {
+	if r, ok := vc.rowOf[s.S]; ok {
+		return r
+	}
+	_, h, es := vc.typedHeap(st, elem)
+	return Sel(h, SArr(s), RowSort(es))
 }
 
 // specApp returns the application of a spec function, emitting its definition on first use.
@@ -504,9 +696,12 @@ func (vc *VC) specApp(fn *ssa.Function, args []Val, st *State) Term {
 	for _, h := range heaps {
 		ts = append(ts, vc.heapFor(st, h, vc.heapSorts[h]))
 	}
-	for _, a := range args {
+	for i, a := range args {
 		if !a.IsT {
 			fail("non-term argument to spec function %s", fn.Name())
+		}
+		if sl, ok := fn.Params[i].Type().Underlying().(*types.Slice); ok {
+			ts = append(ts, vc.rowFor(st, sl.Elem(), a.T))
 		}
 		ts = append(ts, a.T)
 	}
@@ -522,31 +717,31 @@ func (vc *VC) resultSort(fn *ssa.Function) Sort {
 	return vc.specialSort(rs.At(0).Type())
 }
 
+func (vc *VC) specParamSorts(fn *ssa.Function, heaps []string) []Sort {
+	var as []Sort
+	for _, h := range heaps {
+		as = append(as, vc.heapSorts[h])
+	}
+	for _, p := range fn.Params {
+		if sl, ok := p.Type().Underlying().(*types.Slice); ok {
+			as = append(as, RowSort(vc.specialSort(sl.Elem())))
+		}
+		as = append(as, vc.specialSort(p.Type()))
+	}
+	return as
+}
+
 func (vc *VC) ensureSpecDef(fn *ssa.Function, name string, heaps []string) {
 	if _, ok := vc.gdefs[name]; ok {
 		return
 	}
 	if fn.Blocks == nil {
 		// declared without body => uninterpreted
-		var as []Sort
-		for _, h := range heaps {
-			as = append(as, vc.heapSorts[h])
-		}
-		for _, p := range fn.Params {
-			as = append(as, vc.specialSort(p.Type()))
-		}
-		vc.Uninterp(name, as, vc.resultSort(fn))
+		vc.Uninterp(name, vc.specParamSorts(fn, heaps), vc.resultSort(fn))
 		return
 	}
 	if isUninterpretedSpec(fn) || vc.L.Opaque[originName(fn)] || vc.opaqueHere(originName(fn)) {
-		var as []Sort
-		for _, h := range heaps {
-			as = append(as, vc.heapSorts[h])
-		}
-		for _, p := range fn.Params {
-			as = append(as, vc.specialSort(p.Type()))
-		}
-		vc.Uninterp(name, as, vc.resultSort(fn))
+		vc.Uninterp(name, vc.specParamSorts(fn, heaps), vc.resultSort(fn))
 		vc.assumptions["uninterpreted:"+fn.Name()] = true
 		return
 	}
@@ -559,9 +754,16 @@ func (vc *VC) ensureSpecDef(fn *ssa.Function, name string, heaps []string) {
 		st.heaps[h] = Term{S: pn, Sort: vc.heapSorts[h]}
 	}
 	var args []Val
+	short := strings.TrimPrefix(name, "spec.")
 	for i, p := range fn.Params {
-		pn := fmt.Sprintf("x!%d", i)
+		pn := fmt.Sprintf("x!%s!%d", short, i)
 		s := vc.specialSort(p.Type())
+		if sl, ok := p.Type().Underlying().(*types.Slice); ok {
+			rn := fmt.Sprintf("r!%s!%d", short, i)
+			rsrt := RowSort(vc.specialSort(sl.Elem()))
+			g.Params = append(g.Params, fmt.Sprintf("(%s %s)", rn, rsrt))
+			vc.rowOf[pn] = Term{S: rn, Sort: rsrt}
+		}
 		g.Params = append(g.Params, fmt.Sprintf("(%s %s)", pn, s))
 		args = append(args, TV(Term{S: pn, Sort: s}))
 	}
@@ -714,6 +916,13 @@ func (fr *Frame) intrinsic(fn *ssa.Function, args []Val, st *State, pos token.Po
 		return TV(Sel(g, asPtr(args[1]), vs)), true
 	case "same":
 		return TV(Eq(args[0].T, args[1].T)), true
+	case "mapVal":
+		mt, ok := site.Common().Args[0].Type().Underlying().(*types.Map)
+		if !ok {
+			fail("%s: mapVal of a non-map", vc.posOf(pos))
+		}
+		mv, _, _, _ := vc.mapGet(st, mt, args[0].T)
+		return TV(mv), true
 	case "sameSlice":
 		return TV(Eq(args[0].T, args[1].T)), true
 	case "sameArray":
@@ -871,9 +1080,6 @@ type modItem struct {
 func (fr *Frame) callContract(fn *ssa.Function, ct *Contract, args []Val, st *State, pos token.Pos) (Val, *State) {
 	vc := fr.vc
 	rel := relFuncName(fn)
-	vc.callees[rel] = true
-	vc.callCount++
-	k := vc.callCount
 	for _, a := range args {
 		if !a.IsT {
 			fail("%s: non-term argument in call of %s", vc.posOf(pos), rel)
@@ -883,7 +1089,6 @@ func (fr *Frame) callContract(fn *ssa.Function, ct *Contract, args []Val, st *St
 	for i, p := range fn.Params {
 		byPos[p.Pos()] = args[i]
 	}
-	var results []Val
 	mk := func(results []Val) func(cp ClauseParam, old bool) Val {
 		return func(cp ClauseParam, old bool) Val {
 			switch cp.Kind {
@@ -909,9 +1114,30 @@ func (fr *Frame) callContract(fn *ssa.Function, ct *Contract, args []Val, st *St
 			return Val{}
 		}
 	}
+	// call-site obligations registered by the function under verification
+	if vc.ct != nil && vc.dry == 0 {
+		for _, cl := range vc.ct.CallSites[rel] {
+			g := fr.evalCallSite(cl, vc.funcValue(fn), args, st)
+			vc.callCount++
+			vc.Oblige("callsite", fmt.Sprintf("%s#%d.%s", fn.Name(), vc.callCount, cl.Label), pos, st, g, cl.Src)
+		}
+	}
+	return fr.callByContract(rel, fn.Name(), ct, fn.Signature.Results(), mk, st, pos)
+}
+
+// callByContract: assert the precondition, apply the frame, assume the postcondition.
+func (fr *Frame) callByContract(rel, short string, ct *Contract, rs *types.Tuple, mk func(results []Val) func(cp ClauseParam, old bool) Val, st *State, pos token.Pos) (Val, *State) {
+	vc := fr.vc
+	vc.callees[rel] = true
+	if ct.Trusted != "" {
+		vc.assumptions["contract:"+rel+" ("+ct.Trusted+")"] = true
+	}
+	vc.callCount++
+	k := vc.callCount
+	var results []Val
 	for _, cl := range ct.Requires {
 		g := fr.evalClauseWith(cl, mk(nil), st, st)
-		vc.Oblige("call-pre", fmt.Sprintf("call%d.%s.%s", k, fn.Name(), cl.Label), pos, st, g, "precondition of "+rel+": "+cl.Src)
+		vc.Oblige("call-pre", fmt.Sprintf("call%d.%s.%s", k, short, cl.Label), pos, st, g, "precondition of "+rel+": "+cl.Src)
 		st.Assume(g)
 	}
 	pre := st.Clone()
@@ -924,18 +1150,35 @@ func (fr *Frame) callContract(fn *ssa.Function, ct *Contract, args []Val, st *St
 	st.Assume(Le(a, na))
 	vc.setGhost(st, "$alloc", na)
 	// results
-	rs := fn.Signature.Results()
+	refResults := false
 	for i := 0; i < rs.Len(); i++ {
 		t := rs.At(i).Type()
-		r := vc.Fresh("r."+fn.Name(), vc.specialSort(t))
+		srt := vc.specialSort(t)
+		r := vc.Fresh("r."+short, srt)
 		if wf := vc.wfValue(r, t, st); wf.S != "true" {
 			st.Assume(wf)
+			refResults = true
 		}
 		results = append(results, TV(r))
 	}
+	// Memory allocated by the callee is unknown to the caller: the heaps the
+	// postcondition talks about are havocked above the old allocation mark.
+	nonGhost := false
+	for _, it := range items {
+		if it.ghost == "" || it.mapType != nil {
+			nonGhost = true
+		}
+	}
+	// (Not needed for soundness: ids at or above the old allocation mark were
+	// never read by the caller, so constraining their contents through the
+	// callee's postcondition only fixes values that were arbitrary. Kept as an
+	// option for experiments.)
+	if vc.regionHavocOn && (refResults || nonGhost) {
+		fr.regionHavoc(st, ct, a)
+	}
 	if !ct.NoPanic {
 		// exceptional exit
-		pb := vc.Fresh("panics."+fn.Name(), SBool)
+		pb := vc.Fresh("panics."+short, SBool)
 		ps := st.Clone()
 		ps.Assume(pb)
 		for _, cl := range ct.Signals {
@@ -957,6 +1200,30 @@ func (fr *Frame) callContract(fn *ssa.Function, ct *Contract, args []Val, st *St
 		return results[0], st
 	}
 	return Val{Tuple: results}, st
+}
+
+// regionHavoc: for every heap read by the callee's postconditions, objects
+// with an id at or above mark (allocated by the callee) get unknown contents.
+func (fr *Frame) regionHavoc(st *State, ct *Contract, mark Term) {
+	vc := fr.vc
+	heaps := map[string]bool{}
+	for _, cl := range append(append([]*Clause{}, ct.Ensures...), ct.Signals...) {
+		if fn := vc.L.SSA.Func(cl.GoName); fn != nil {
+			for _, h := range vc.specHeaps(fn) {
+				heaps[h] = true
+			}
+		}
+	}
+	for _, h := range sortedKeys(heaps) {
+		srt := vc.heapSorts[h]
+		if !strings.HasPrefix(string(srt), "(Array Int ") {
+			continue
+		}
+		cur := vc.heapFor(st, h, srt)
+		nh := vc.Fresh("rh."+h, srt)
+		st.Assume(T(SBool, "(forall ((a!r Int)) (! (=> (< a!r %s) (= (select %s a!r) (select %s a!r))) :pattern ((select %s a!r))))", mark.S, nh.S, cur.S, nh.S))
+		st.heaps[h] = nh
+	}
 }
 
 // modItems evaluates the modifies clauses of ct.
